@@ -976,12 +976,10 @@ impl Triangulation3D {
         }
     }
 
-    /// Finds the location of a [`Point3D`] within the triangulation
-    /// and inserts it. Returns a `bool` indicating if the addition of the new [`Point3D`]
-    /// produced any change
-    fn add_point(&mut self, point: Point3D) -> Result<bool, String> {
+    /// Finds the first valid [`Triangle3D`] that contains a [`Point3D`] (in its interior,
+    /// on an edge or on a vertex), and where in that triangle the point is
+    fn find_point(&self, point: Point3D) -> Option<(usize, PointInTriangle)> {
         // Iterate through triangles to check
-
         for (i, tripiece) in self.triangles.iter().enumerate() {
             // skip triangle if it has been deleted
             if !tripiece.valid {
@@ -990,14 +988,24 @@ impl Triangulation3D {
 
             let p_location = tripiece.triangle.test_point(point);
             if p_location != PointInTriangle::Outside {
-                return self.add_point_to_triangle(i, point, p_location);
+                return Some((i, p_location));
             }
         }
+        None
+    }
 
-        Err(
-            "No Triangle3D in Triangulation3D contained the point that you wanted to add."
-                .to_string(),
-        )
+    /// Finds the location of a [`Point3D`] within the triangulation
+    /// and inserts it. Returns a `bool` indicating if the addition of the new [`Point3D`]
+    /// produced any change
+    #[cfg_attr(not(test), allow(dead_code))]
+    fn add_point(&mut self, point: Point3D) -> Result<bool, String> {
+        match self.find_point(point) {
+            Some((i, p_location)) => self.add_point_to_triangle(i, point, p_location),
+            None => Err(
+                "No Triangle3D in Triangulation3D contained the point that you wanted to add."
+                    .to_string(),
+            ),
+        }
     }
 
     /// Refines a [`Triangulation3D`]. This only works if all then [`Triangle3D`] have their
@@ -1045,14 +1053,15 @@ impl Triangulation3D {
 
                 // Since the circumcenter may be in another triangle, we need
                 // to search for it.
-                match self.add_point(c_center) {
-                    Ok(did_something) => {
-                        if did_something {
+                match self.find_point(c_center) {
+                    Some((index, p_location)) => {
+                        // an error while inserting is an error (the mesh is left half-updated)
+                        if self.add_point_to_triangle(index, c_center, p_location)? {
                             any_changes = true;
                             self.restore_delaunay(max_aspect_ratio)?;
                         }
                     }
-                    Err(_) => {
+                    None => {
                         // What should I do if the circumcenter is out of the polygon?
                         // For now just add the centroid of it...
                         let centroid = self.triangles[i].centroid;
